@@ -124,7 +124,14 @@ impl LanguageServer for Server {
                 return Ok(None);
             };
 
+            #[cfg(feature = "verif")]
+            crate::verif::emit(crate::verif::Event::VfsReadWant);
             let vfs = snap.vfs.read().unwrap();
+            #[cfg(feature = "verif")]
+            let _verif_read = crate::verif::scope(
+                crate::verif::Event::VfsReadHeld,
+                crate::verif::Event::VfsReadReleased,
+            );
             let lsp_location = to_proto::location(&vfs, &line_index, location);
             Ok(Some(GotoDefinitionResponse::Scalar(lsp_location)))
         });
@@ -141,7 +148,14 @@ impl LanguageServer for Server {
             let Some(location_list) = snap.analysis.references(pos) else {
                 return Ok(None);
             };
+            #[cfg(feature = "verif")]
+            crate::verif::emit(crate::verif::Event::VfsReadWant);
             let vfs = snap.vfs.read().unwrap();
+            #[cfg(feature = "verif")]
+            let _verif_read = crate::verif::scope(
+                crate::verif::Event::VfsReadHeld,
+                crate::verif::Event::VfsReadReleased,
+            );
             let lsp_location_list = location_list
                 .into_iter()
                 .map(|it| to_proto::location(&vfs, &line_index, it))
@@ -224,7 +238,14 @@ impl LanguageServer for Server {
                 return Ok(None);
             };
 
+            #[cfg(feature = "verif")]
+            crate::verif::emit(crate::verif::Event::VfsReadWant);
             let vfs = snap.vfs.read().unwrap();
+            #[cfg(feature = "verif")]
+            let _verif_read = crate::verif::scope(
+                crate::verif::Event::VfsReadHeld,
+                crate::verif::Event::VfsReadReleased,
+            );
             let lsp_links = links
                 .into_iter()
                 .map(|it| to_proto::document_link(&vfs, &line_index, it))
@@ -255,12 +276,22 @@ impl LanguageServer for Server {
     }
 
     fn did_open(&mut self, params: DidOpenTextDocumentParams) -> Self::NotifyResult {
+        #[cfg(feature = "verif")]
+        let _verif_notif = crate::verif::scope(
+            crate::verif::Event::NotifEnter,
+            crate::verif::Event::NotifExit,
+        );
         self.set_file_content(&params.text_document.uri, &params.text_document.text);
         self.update_diagnostics();
         ControlFlow::Continue(())
     }
 
     fn did_change(&mut self, params: DidChangeTextDocumentParams) -> Self::NotifyResult {
+        #[cfg(feature = "verif")]
+        let _verif_notif = crate::verif::scope(
+            crate::verif::Event::NotifEnter,
+            crate::verif::Event::NotifExit,
+        );
         if let Some(change) = params.content_changes.first() {
             self.set_file_content(&params.text_document.uri, &change.text);
             self.update_diagnostics();
@@ -272,11 +303,26 @@ impl LanguageServer for Server {
 impl Server {
     fn set_file_content(&mut self, uri: &Url, text: &str) {
         let path = UrlExt::to_file_path(uri);
+        #[cfg(feature = "verif")]
+        crate::verif::emit(crate::verif::Event::VfsWriteWant);
         let mut vfs = self.vfs.write().unwrap();
+        #[cfg(feature = "verif")]
+        let _verif_write = crate::verif::scope(
+            crate::verif::Event::VfsWriteHeld,
+            crate::verif::Event::VfsWriteReleased,
+        );
         let file_id = vfs.assign_or_get_file_id(path);
         let text = Arc::from(text);
+        #[cfg(feature = "verif")]
+        crate::verif::emit(crate::verif::Event::SalsaWriteWant);
         self.host.set_file_content(file_id, text);
+        #[cfg(feature = "verif")]
+        crate::verif::emit(crate::verif::Event::SalsaWriteDone);
+        #[cfg(feature = "verif")]
+        crate::verif::emit(crate::verif::Event::SalsaWriteWant);
         self.host.set_root_file(&mut *vfs, file_id);
+        #[cfg(feature = "verif")]
+        crate::verif::emit(crate::verif::Event::SalsaWriteDone);
     }
 
     fn update_diagnostics(&mut self) {
@@ -290,7 +336,14 @@ impl Server {
                     .map(|diag| to_proto::diagnostic(&line_index, diag))
                     .collect();
 
+                #[cfg(feature = "verif")]
+                crate::verif::emit(crate::verif::Event::VfsReadWant);
                 let vfs = snap.vfs.read().unwrap();
+                #[cfg(feature = "verif")]
+                let _verif_read = crate::verif::scope(
+                    crate::verif::Event::VfsReadHeld,
+                    crate::verif::Event::VfsReadReleased,
+                );
                 let file_path = vfs.path_for_file(&file_id);
                 let file_uri = UrlExt::from_file_path(file_path);
 
@@ -316,6 +369,21 @@ impl Server {
         let snap = ServerSnapshot {
             analysis: self.host.analysis(),
             vfs: Arc::clone(&self.vfs),
+        };
+        #[cfg(feature = "verif")]
+        let f = {
+            let verif_task = crate::verif::next_task_id();
+            crate::verif::emit(crate::verif::Event::SnapshotTaken {
+                task: verif_task,
+                label: std::any::type_name::<P>(),
+            });
+            move |snap: ServerSnapshot, params: P| {
+                let _verif_task = crate::verif::scope(
+                    crate::verif::Event::TaskStart { task: verif_task },
+                    crate::verif::Event::TaskEnd { task: verif_task },
+                );
+                f(snap, params)
+            }
         };
         task::spawn_blocking(move || f(snap, params))
     }
